@@ -318,6 +318,8 @@ func c16Caps(c *Ctx) {
 	}
 	pd := flow.NewPostDom(recompute)
 	found := map[string]bool{}
+	wiring := map[string]bool{}
+	defer func() { c16CapWired(c, recompute, wiring) }()
 	ir.EachInstr(recompute, func(_ *ssa.BasicBlock, _ int, in ssa.Instruction) {
 		mu, ok := in.(*ssa.MapUpdate)
 		if !ok {
@@ -367,6 +369,9 @@ func c16Caps(c *Ctx) {
 				// nil checks of the manager are fine; anything else is an extra condition
 				if v, _, ok := nilCompare(cond); ok {
 					if _, isPtr := v.Type().Underlying().(*types.Pointer); isPtr {
+						if f, _, ok := ir.LoadedField(v); ok {
+							wiring[f.Key()] = true // the capability silently disappears if this member was never set
+						}
 						continue
 					}
 				}
@@ -937,4 +942,202 @@ func unspill(v ssa.Value) ssa.Value {
 		return stored
 	}
 	return v
+}
+
+// ---------------------------------------------------------------- R-cap-wired
+// The capability recomputation advertises prompts/resources only when its pointer to the corresponding registry is set
+// (a nil pointer silently means "nothing registered"). Every object of that type that a server constructor creates must
+// therefore get each of those members set: by a setter call on the created value in the constructor, or by the
+// dispatcher constructor it is handed to — provided that one sets it unconditionally, not only on an object it created
+// itself as a fallback.
+func c16CapWired(c *Ctx, recompute *ssa.Function, wiring map[string]bool) {
+	if recompute.Signature.Recv() == nil || len(wiring) == 0 {
+		return
+	}
+	L := recompute.Signature.Recv().Type()
+	// setters: library methods on L storing their parameter into a wiring member
+	setters := map[*ssa.Function]string{}
+	for _, fn := range c.P.LibFns {
+		if fn.Signature.Recv() == nil || !types.Identical(fn.Signature.Recv().Type(), L) {
+			continue
+		}
+		ir.EachInstr(fn, func(_ *ssa.BasicBlock, _ int, in ssa.Instruction) {
+			if st, ok := in.(*ssa.Store); ok {
+				if f, base, ok := ir.FieldOf(st.Addr); ok && wiring[f.Key()] && base == ssa.Value(fn.Params[0]) {
+					if _, isParam := ir.Unwrap(st.Val).(*ssa.Parameter); isParam {
+						setters[fn] = f.Key()
+					}
+				}
+			}
+		})
+	}
+	// functions that wire whatever object of type L they hold in a member, unconditionally
+	wiresHeld := map[*ssa.Function]map[string]bool{}
+	for _, fn := range c.P.LibFns {
+		ir.EachInstr(fn, func(_ *ssa.BasicBlock, _ int, in ssa.Instruction) {
+			call, ok := in.(*ssa.Call)
+			if !ok {
+				return
+			}
+			sc := ir.StaticCallee(call)
+			f, isSetter := setters[sc]
+			if !isSetter {
+				return
+			}
+			recv := chainRoot(call.Call.Args[0], setters)
+			lf, _, ok := ir.LoadedField(recv)
+			if !ok || !types.Identical(lf.Type, L) {
+				return
+			}
+			// not merely on the fallback object: not controlled by `member == nil`
+			for _, g := range flow.Guards(fn, call.Block()) {
+				if v, _, ok := nilCompare(g.If.Cond); ok {
+					if gf, _, ok := ir.LoadedField(v); ok && gf.Key() == lf.Key() {
+						return
+					}
+				}
+			}
+			if wiresHeld[fn] == nil {
+				wiresHeld[fn] = map[string]bool{}
+			}
+			wiresHeld[fn][f] = true
+		})
+	}
+	// allocation sites: calls of library functions returning L whose result is a fresh object
+	n := 0
+	for _, fn := range c.P.LibFns {
+		ir.EachInstr(fn, func(_ *ssa.BasicBlock, _ int, in ssa.Instruction) {
+			call, ok := in.(*ssa.Call)
+			if !ok {
+				return
+			}
+			sc := ir.StaticCallee(call)
+			if sc == nil || !c.P.IsLib(sc) || sc.Signature.Recv() != nil || sc.Signature.Results().Len() != 1 || !types.Identical(sc.Signature.Results().At(0).Type(), L) {
+				return
+			}
+			if _, isSetter := setters[sc]; isSetter {
+				return
+			}
+			// what happens to the created value (and to values chained from it through setters)
+			set := map[string]bool{}
+			vals := map[ssa.Value]bool{call: true}
+			work := []ssa.Value{call}
+			for len(work) > 0 {
+				v := work[0]
+				work = work[1:]
+				if v.Referrers() == nil {
+					continue
+				}
+				for _, r := range *v.Referrers() {
+					switch y := r.(type) {
+					case *ssa.Phi:
+						if !vals[y] {
+							vals[y] = true
+							work = append(work, y)
+						}
+						continue
+					case *ssa.Store:
+						// kept in a member of an object this function also wires
+						if y.Val == v {
+							if _, _, ok := ir.FieldOf(y.Addr); ok {
+								for f := range wiresHeld[fn] {
+									set[f] = true
+								}
+							}
+						}
+						continue
+					}
+					rc, ok := r.(*ssa.Call)
+					if !ok {
+						continue
+					}
+					rsc := ir.StaticCallee(rc)
+					// any other method of the object that returns the object (builder chain)
+					if rsc != nil && c.P.IsLib(rsc) && len(rc.Call.Args) > 0 && rc.Call.Args[0] == v && rsc.Signature.Results().Len() == 1 && types.Identical(rsc.Signature.Results().At(0).Type(), L) {
+						if !vals[rc] {
+							vals[rc] = true
+							work = append(work, rc)
+						}
+					}
+					if f, ok := setters[rsc]; ok && len(rc.Call.Args) > 0 && rc.Call.Args[0] == v {
+						set[f] = true
+						if !vals[rc] {
+							vals[rc] = true
+							work = append(work, rc)
+						}
+						continue
+					}
+					// handed to an option constructor whose closure ends up in a constructor that wires what it holds
+					if rsc != nil && c.P.IsLib(rsc) {
+						for _, rr := range derefs(rc) {
+							if kc, ok := rr.(*ssa.Call); ok {
+								if k := ir.StaticCallee(kc); k != nil {
+									for f := range wiresHeld[k] {
+										set[f] = true
+									}
+								}
+							}
+						}
+					}
+				}
+			}
+			var fields []string
+			for f := range wiring {
+				fields = append(fields, f)
+			}
+			sort.Strings(fields)
+			for _, f := range fields {
+				n++
+				c.R.Check(set[f], "R-cap-wired", f+" of the object created in "+fname(fn), c.Pos(call.Pos()), "set by a setter on the created object or by the dispatcher constructor it is handed to",
+					sprintf("%s creates the object that computes the advertised capabilities but %s is never set on it (neither here nor, unconditionally, by the constructor it is handed to): the corresponding capability is silently never advertised", fname(fn), f))
+			}
+		})
+	}
+	c.R.Min("R-cap-wired", 4)
+	_ = n
+}
+
+// chainRoot follows `x.withA(a).withB(b)` chains back to x.
+func chainRoot(v ssa.Value, setters map[*ssa.Function]string) ssa.Value {
+	for i := 0; i < 6; i++ {
+		call, ok := v.(*ssa.Call)
+		if !ok {
+			return v
+		}
+		if _, isSetter := setters[ir.StaticCallee(call)]; !isSetter || len(call.Call.Args) == 0 {
+			return v
+		}
+		v = call.Call.Args[0]
+	}
+	return v
+}
+
+// derefs: the instructions that use the result of call, looking through the variadic-slice plumbing
+// (store into an element of a fresh array, slice of it, passed as argument).
+func derefs(call *ssa.Call) []ssa.Instruction {
+	var out []ssa.Instruction
+	if call.Referrers() == nil {
+		return out
+	}
+	for _, r := range *call.Referrers() {
+		out = append(out, r)
+		st, ok := r.(*ssa.Store)
+		if !ok {
+			continue
+		}
+		ia, ok := st.Addr.(*ssa.IndexAddr)
+		if !ok {
+			continue
+		}
+		arr := ia.X
+		if arr.Referrers() == nil {
+			continue
+		}
+		for _, ar := range *arr.Referrers() {
+			if sl, ok := ar.(*ssa.Slice); ok && sl.Referrers() != nil {
+				out = append(out, *sl.Referrers()...)
+			}
+		}
+	}
+	return out
 }
